@@ -12,32 +12,30 @@ import re
 import vf
 
 META = {
-    "text": "Theorems (Coq, no axioms) over an executable model of types.Tx.Validate, ValidateSystemTx, validateNameTx, the "
-            "system/name/enterprise stateful validators, newSysCmd/newVoteCmd, cmd.run of stake/unstake/voteBP/voteDAO (vote "
-            "tally load, SubVote, AddVote, Sync, refreshAllVote, threshold, record (de)serialisers), ExecuteNameTx, "
-            "ExecuteEnterpriseTx and the mempool/executeTx dispatch, in which every index, slice, single-value type assertion, "
-            "explicit panic, zero division and nil map-value dereference is an explicit Panic outcome.  Proved: admission never "
-            "panics and every transaction executes without panic on EVERY state reachable from genesis by executed governance "
-            "transactions (storage invariant Inv and key invariant KInv preserved by every step; no well-formedness assumption "
-            "on the state).  The model is the code after fixes F3,F4,F15,F24,F28,F29.  Tie: the panic-site inventory of every "
-            "function reachable from admission / governance execution is regenerated each run and its inclusion in the model's "
-            "reviewed site list is a proof obligation; the real validators and the real executor are run under recover() on "
-            "structured, life-cycle and raw payloads and outcome classes, enterprise post-states and every staking / vote / "
-            "vote-result record written are compared with the model by vm_compute.  Termination of admission: every function of "
-            "mempool/*.go that operates on a mutex is translated per (mutex, mode) with acquire/release as counter operations and "
-            "Theorem C14_pool_locks_released (counter analysis of VmGuard/Balance.v, closed by vm_compute each run) states that every "
-            "path out of it -- early returns included -- has released what it acquired; sequences of pool operations on ONE pool "
-            "(every rejection class, then put / get / block notification / list / remove) are run with the real functions under a "
-            "3 s watchdog per operation.",
-    "note": "Hypotheses of the reachable-state theorems: encoding/json round trip of a one-element string list; DecodeAddress "
-            "results are short; base58.Decode length consistency; records written < 2^32 bytes and amounts < 2^304 (total supply "
-            "bound, C01); genesis BP ids are 39-byte peer ids.  Trusted: Coq kernel/vm_compute; JSON decoding (the model starts "
-            "from the decoded CallInfo); string oracles; vprt.go (in-memory voting power rank), balances and DB errors are "
-            "outside the model and exercised by the engine only; gen_panicsites has no type information (name-based "
-            "reachability, reviewed list in Sites.v); the engine replicates mempool.validateTx's governance dispatch.  Lock obligation: "
-            "syntactic (go/parser), calls are skipped (a callee is checked as its own term; a panic of a callee while a non-deferred "
-            "lock is held is not an exit of the model), lock operations in non-deferred closures / goto / fallthrough are rejected.",
-    "technique": "Coq invariant/totality proofs over a Panic-explicit model + generated panic-site inventory obligation + vm_compute correspondence (outcomes and written records) against the real validators/executor",
+    "text": "17 theorems (Coq, no axioms).  FULL: Tx.Validate, the stateful validators and the governance dispatch never panic for "
+            "any payload / string oracle (C14_tx_validate_total, C14_validate_total); an admitted tx executes without panic "
+            "(C14_admitted_executes, C14_exec_total); enterprise state well-formedness / conf round trip preserved; storage and "
+            "key invariants preserved by every executed governance tx, hence validation and execution are total on EVERY state "
+            "reachable from genesis (C14_reachable_*; PARTIAL only in the hypotheses of note); executeTx's dispatch covers every "
+            "admitted type; every pool function releases each mutex on every exit (C14_pool_locks_released).  The model is HEAD (fixes F3, F4, F15, F24, F28, F29 included); nothing REFUTED, no open "
+            "finding.  Tie, every run: gen_panicsites regenerates the panic-site inventory and dispatch case lists (C14_sites_covered, "
+            "C14_dispatch_complete); gen_panicsites_locks translates the lock paths of mempool/*.go (C14_pool_lock_paths_checked, "
+            "offending return printed as a path); engine 1 (package chain) runs the real "
+            "Validate / stateful validators / executeTx under recover() on ~920 signed txs (tx type x network x fork, life "
+            "cycles, envelope bounds, raw bytes); outcome classes, enterprise post-states and every staking / vote record "
+            "written are compared with the model by vm_compute; engine 2 runs the real mempool.verifyTx / validateTx on the same "
+            "cases; engine 3 runs sequences on one real pool (19 rejection classes, then put / get / block / list / remove), 3 s "
+            "watchdog per operation.  Direct predicates: no panic, no hang, expected accept / specific rejection.",
+    "note": "Trusted: Coq kernel + vm_compute (no axioms); Go toolchain, overlay build with a VM stub that always succeeds; "
+            "encoding/json (the model starts from the decoded CallInfo); string functions as oracles (DecodeAddress, base58 + "
+            "IDFromBytes, SetString, ToUpper, ParseListEntry, RPC permission split, json round trip of a one-element list), their "
+            "observed values checked each run; gen_panicsites / gen_panicsites_locks (go/parser, no types, name-based reachability; "
+            "lock translation skips calls, so a callee panicking under a non-deferred lock is not an exit) and the reviewed site "
+            "list AdmitTotal/Sites.v; the error-text classifier and the case generator.  Hypotheses of the reachable-state "
+            "theorems: records < 2^32 bytes, amounts < 2^304 (supply bound, C01), genesis BP ids are 39-byte peer ids.  Modelled "
+            "or engine-only, not verified: vprt.go voting-power rank, balances / fees, DB errors, receipts, contract execution, "
+            "evictTransactions timing, actor message handlers; lock order / double acquisition belong to C13.",
+    "technique": "Coq totality / invariant proofs over a Panic-explicit model + generated site, dispatch and lock-path obligations + vm_compute correspondence against three engines",
 }
 
 GOV, NORMAL, REDEPLOY, FEEDELEG, TRANSFER, CALL, DEPLOY, MULTICALL = 1, 0, 2, 3, 4, 5, 6, 7
@@ -913,9 +911,10 @@ def run(ctx):
     nlockterms, _ = gen_locks(ctx)
     pr = ctx.prove(extra_targets=["AdmitTotal/Eval.vo", "AdmitTotal/Examples.vo"])
     ctx.cov["trusted_base"] = [
-        "Coq 8.16.1 kernel + vm_compute", "Go toolchain, encoding/json", "overlay build of package chain (VM stub never reached by governance txs)",
-        "gen_panicsites (go/parser, no type information) and the reviewed site list AdmitTotal/Sites.v",
-        "engine harness/engines/admit (replicates mempool.validateTx's governance dispatch)", "case generator checks/C14.py, error-text classifier",
+        "Coq 8.16.1 kernel + vm_compute", "Go toolchain, encoding/json", "overlay build of packages chain / mempool with a VM stub that always succeeds",
+        "gen_panicsites, gen_panicsites_locks (go/parser, no type information) and the reviewed site list AdmitTotal/Sites.v",
+        "engines harness/engines/admit (1: validators + executor, 2: real mempool admission, 3: sequences on one pool with a watchdog)",
+        "case generator checks/C14.py, error-text classifier",
     ]
     ctx.assumptions = ["json.Unmarshal(json.Marshal([s])) = [s]; DecodeAddress results are short; base58.Decode length consistency",
                        "records written are shorter than 2^32 bytes, amounts below 2^304 (total supply bound)",
